@@ -1,0 +1,84 @@
+package schema
+
+import (
+	"github.com/jsightapi/jsight-schema-go-library/notations/jschema/internal/schema/constraint"
+)
+
+// PrivateCopyForAllOf returns the tree the "allOf" rules of which can be compiled
+// without touching the given one: every object with the "allOf" rule, and every
+// object and array on the way from the root to it, is replaced with a copy. All
+// other nodes are the nodes of the given tree, they are not changed by the
+// compilation. The second result is false (and the tree is returned as it is)
+// when the tree has no "allOf" rule.
+//
+// The nodes of a schema are reachable from every schema it was added to as a
+// type. The compilation of the "allOf" rule adds properties and rules to the
+// object, and which ones depends on the types of the root schema being compiled.
+func PrivateCopyForAllOf(node Node) (Node, bool) {
+	switch n := node.(type) {
+	case *ObjectNode:
+		children, copied := privateCopyOfChildren(n.children)
+		if !copied && n.Constraint(constraint.AllOfConstraintType) == nil {
+			return node, false
+		}
+		cp := *n
+		cp.children = children
+		cp.keys = n.keys.clone()
+		cp.constraints = cloneConstraints(n.constraints)
+		return &cp, true
+
+	case *ArrayNode:
+		children, copied := privateCopyOfChildren(n.children)
+		if !copied {
+			return node, false
+		}
+		cp := *n
+		cp.children = children
+		return &cp, true
+	}
+	return node, false
+}
+
+// privateCopyOfChildren always returns a new slice: properties are appended to
+// the children of an object with the "allOf" rule.
+func privateCopyOfChildren(children []Node) ([]Node, bool) {
+	cp := make([]Node, len(children), len(children)+10)
+	copied := false
+	for i, child := range children {
+		c, ok := PrivateCopyForAllOf(child)
+		cp[i] = c
+		if ok {
+			copied = true
+		}
+	}
+	return cp, copied
+}
+
+func (k *ObjectNodeKeys) clone() *ObjectNodeKeys {
+	cp := &ObjectNodeKeys{
+		Data:  make([]ObjectNodeKey, len(k.Data), len(k.Data)+5),
+		index: make(map[indexKey]int, len(k.index)+5),
+	}
+	copy(cp.Data, k.Data)
+	for key, i := range k.index {
+		cp.index[key] = i
+	}
+	return cp
+}
+
+// cloneConstraints returns a map with the same constraints in the same order.
+// The list of required keys is the only constraint the compilation of the
+// "allOf" rule changes in place, so it is copied too.
+func cloneConstraints(m *Constraints) *Constraints {
+	cp := &Constraints{}
+	if m == nil {
+		return cp
+	}
+	m.EachSafe(func(k constraint.Type, v constraint.Constraint) {
+		if rk, ok := v.(*constraint.RequiredKeys); ok {
+			v = rk.Copy()
+		}
+		cp.Set(k, v)
+	})
+	return cp
+}
